@@ -87,7 +87,12 @@ def get_use_tree(
                     use_dict_mod.rename_map[only_name] = new_rename
                     use_dict[use_stmnt.mod_name] = use_dict_mod
             else:
-                use_dict[use_stmnt.mod_name] = Use(use_stmnt.mod_name)
+                # The whole module is now visible; local names introduced by
+                # earlier renames (ONLY: loc => rem) stay valid as well
+                use_dict[use_stmnt.mod_name] = Use(
+                    use_stmnt.mod_name,
+                    rename_map={**use_dict_mod.rename_map, **merged_rename},
+                )
             # Skip if we have already visited module with the same only list
             if old_len == len(use_dict_mod.only_list):
                 continue
